@@ -41,6 +41,7 @@ def facets(c):
         f["axis_sign"] = "none"
     f["same_shape"] = c["s"] == c["s2"]
     f["s"] = list(c["s"])
+    f["maxnd"] = max(len(c["s"]), len(c["s2"]))
     f["square"] = len(c["s"]) == 2 and c["s"][0] == c["s"][1]
     return f
 
@@ -52,7 +53,8 @@ def stratified(cfgs, n, rng):
     strata = {}
     for c in cfgs:
         f = facets(c)
-        key = (f["prim"], f["form"], f["argnum"], f["kind"], f["axis_kind"], f["axis_sign"], f["nd"], f["nd2"], f["kd"], f["ia"])
+        key = (f["prim"], f["form"], f["argnum"], f["kind"], f["axis_kind"], f["axis_sign"], f["nd"], f["nd2"], f["kd"], f["ia"], f["st"],
+               tuple(sorted(str(i.get("t")) for i in c["tp"])) if c["tp"] and isinstance(c["tp"][0], dict) else f["tp_len"])
         strata.setdefault(key, []).append(c)
     keys = sorted(strata, key=str)
     rng.shuffle(keys)
@@ -139,12 +141,12 @@ def mirror(prop, r):
 
 FAMILIES = {
     # family: (MaxRank quick, MaxRank thorough, kinds)
-    "rearr": (3, 3, ["rr"]), "binary": (3, 4, ["rr"]), "where": (2, 2, ["rr"]), "reduce": (3, 4, ["rr"]), "cum": (3, 3, ["rr"]), "unary": (2, 2, ["rr"]),
+    "linalg": (3, 3, ["rr"]), "fft": (3, 3, ["rr"]), "join": (3, 3, ["rr"]), "contract": (3, 3, ["rr"]), "rearr": (3, 3, ["rr"]), "binary": (3, 4, ["rr"]), "where": (2, 2, ["rr"]), "reduce": (3, 4, ["rr"]), "cum": (3, 3, ["rr"]), "unary": (2, 2, ["rr"]),
 }
-COMPLEX_FAMILIES = {"binary": (2, 3, ["cc", "cr", "rc"]), "reduce": (2, 3, ["cc"]), "unary": (2, 2, ["cc"])}
+COMPLEX_FAMILIES = {"linalg": (2, 3, ["cc"]), "fft": (3, 3, ["rr", "cc"]), "contract": (2, 3, ["cc", "cr", "rc"]), "binary": (2, 3, ["cc", "cr", "rc"]), "reduce": (2, 3, ["cc"]), "unary": (2, 2, ["cc"])}
 
 
-def run_rules(pid, tier, seed, fams, per_family_quick, level_rule, assumptions, extra_cases=None):
+def run_rules(pid, tier, seed, fams, per_family_quick, level_rule, assumptions, extra_cases=None, write=True):
     t0 = time.time()
     quick = tier == "quick"
     verdict = vlib.Verdict(pid)
@@ -156,6 +158,8 @@ def run_rules(pid, tier, seed, fams, per_family_quick, level_rule, assumptions, 
         allc, r = enumerate_family(fam, rq if quick else rt, kinds)
         states += r.distinct
         trans += r.generated
+        if pid == "C09":      # the complex convention: only configurations with a complex operand or a complex result
+            allc = [c for c in allc if c["kind"] != "rr" or fam == "fft"]
         chosen = stratified(allc, per_family_quick if quick else None, rng)
         notes.append({"family": fam, "kinds": kinds, "configurations_enumerated_by_tlc": len(allc), "replayed": len(chosen)})
         cfgs += chosen
@@ -222,6 +226,8 @@ def run_rules(pid, tier, seed, fams, per_family_quick, level_rule, assumptions, 
         "samples": [{"cfg": o["cfg"], "in": o["in"], "out": o["out"], "vjp": {k: o["vjp"][k] for k in ("raised", "nbad", "struct")},
                      "jvp": {k: o["jvp"][k] for k in ("raised", "nbad", "struct")}} for o in s],
     }
+    if not write:
+        return verdict, coverage
     rc = verdict.finish()
     vlib.write_evidence(pid, tier, seed, "model_checking", coverage, assumptions, time.time() - t0, len(verdict.violations))
     return rc
@@ -261,6 +267,13 @@ def c05(tier, seed, replay=None):
 
 def c06(tier, seed, replay=None):
     return run_rules("C06", tier, seed, FAMILIES, 300, RULE, ASSUME)
+
+
+INDEX_FAMILY = {"index": (2, 3, ["rr"])}
+
+
+def c11_index(tier, seed):
+    return run_rules("C11", tier, seed, INDEX_FAMILY, 900, RULE, ASSUME, write=False)
 
 
 def c09(tier, seed, replay=None):
